@@ -138,17 +138,17 @@ def run_all(props=None, ids=None, jobs=14):
     t0 = time.time()
     if not ms:
         return [], 0.0
-    cmdline = extract.rustc_cmdline('default')
+    cmdlines = {c: extract.rustc_cmdline(c) for c in sorted(set(m.get('config', 'default') for m in ms))}
     from concurrent.futures import ProcessPoolExecutor
     with ProcessPoolExecutor(max_workers=min(jobs, len(ms))) as ex:
-        out = list(ex.map(_run_one, [(m, cmdline) for m in ms]))
+        out = list(ex.map(_run_one, [(m, cmdlines[m.get('config', 'default')]) for m in ms]))
     return out, time.time() - t0
 
 
 def _run_one(arg):
     m, cmdline = arg
     try:
-        return run_mutant(m, cmdline=cmdline)
+        return run_mutant(m, feature_set=m.get('config', 'default'), cmdline=cmdline)
     except Exception as e:  # pragma: no cover
         return {'id': m['id'], 'status': 'invalid', 'why': 'internal: %r' % e}
 
